@@ -6,7 +6,7 @@ CONSTANTS
   FixPO = 9
   MaxPos = 3
   Extra = 1
-  MaxKw = 2
+  MaxKw = 3
   KindMode = "pat"
   Dump = TRUE
 INVARIANT RefIsDeclarative
